@@ -59,6 +59,10 @@ def concretize(prog, cmds, seed, trigger=TRIGGER, vary_case=True, layout=None, d
                 lines = []                             # an empty doccomment is still a doccomment
             elif decoy:
                 lines.append(decoy)                    # shares words with the trigger string without containing it
+            if rng.random() < 0.12 and c["k"] not in ("cpp_member", "cpp_constructor", "cpp_attr"):
+                # a doccomment that brings an admonition of its own: the entry keeps the note/warning of its kind
+                adm = rng.choice(["note", "warning"])
+                lines += ["", ".. %s::" % adm, "", "   own %s w%d" % (adm, i)]
             if c["k"] in ("cpp_member", "cpp_constructor"):
                 lines.append(":param bb: a hand-written field for a name that only begins like a parameter")
             out.append(ind + "#[[[")
